@@ -91,7 +91,7 @@ def main(argv=None):
     prop = args.prop
     t0 = time.time()
     mod = importlib.import_module("harness." + prop)
-    if hasattr(mod, "run"):   # non-explorer harness (Tier S): own runner, same reporting contract
+    if hasattr(mod, "run") and not args.only:   # harness with its own runner (Tier S conditions next to explorer jobs)
         return mod.run(args.tier, seed, args)
     jobs = mod.jobs(args.tier, seed)
     if args.only:
